@@ -543,7 +543,9 @@ pub fn explore(
         par_for_each(items, threads, &stop, |_, (hist, outs_hash)| {
             let heavy = hist.iter().filter(|&&i| is_heavy(&s.ops[i as usize])).count();
             for oi in 0..s.ops.len() as u16 {
-                if deadline.expired() {
+                // the first level always completes, whatever the machine load: a suite
+                // never ends without a fully covered depth
+                if depth >= 1 && deadline.expired() {
                     stop.store(true, Ordering::Relaxed);
                     return;
                 }
